@@ -682,13 +682,76 @@ def rule_union_order_stable(ctx: Ctx, rid="C01.UNION-ORDER-STABLE"):
     ctx.rep.floor("model field annotations", n, 10)
 
 
+def reachable_functions(ctx: Ctx):
+    """ids of the functions of the package (outside sly) that the compile / evaluation entry points can reach, by name: from the
+    evaluator's __init__ / recompile / __call__ / run_experiment, parse_source, generate_code, the bucketing functions, every method
+    of the lexer, parser and generator classes and every method of the model classes, following each identifier a reached function
+    mentions that names a function, method or class of the package.  Over-approximate on purpose (any function of that name counts);
+    what it leaves out are additions no existing call path mentions - an unparser, a command line, reporting helpers."""
+    cached = ctx.__dict__.get("_reachable_fns")
+    if cached is not None:
+        return cached
+    index, classes = {}, {}
+    for m in ctx.src.own_modules():
+        for node in ast.walk(m.tree):
+            if isinstance(node, (ast.FunctionDef, ast.AsyncFunctionDef)):
+                index.setdefault(node.name, []).append(node)
+            elif isinstance(node, ast.ClassDef):
+                classes.setdefault(node.name, []).append(node)
+    roots = []
+    for m in ctx.src.own_modules():
+        for cn, c in m.classes().items():
+            whole = cn in ("PythonCodeGen",) or _is_subclass_of(ctx, m, c, {"Lexer", "Parser", "BaseModel"})
+            for f_ in c.body:
+                if isinstance(f_, ast.FunctionDef) and (whole or (cn == "ExperimentEvaluator" and f_.name in (
+                        "__init__", "__new__", "recompile", "__call__", "run_experiment"))):
+                    roots.append(f_)
+        for fname in ("parse_source", "generate_code", "deterministic_choice", "deterministic_proba", "confidence_interval", "probit"):
+            if fname in m.functions():
+                roots.append(m.functions()[fname])
+    seen, todo = set(), list(roots)
+    while todo:
+        f_ = todo.pop()
+        if id(f_) in seen:
+            continue
+        seen.add(id(f_))
+        for x in ast.walk(f_):
+            nm = x.id if isinstance(x, ast.Name) else (x.attr if isinstance(x, ast.Attribute) else None)
+            if nm is None:
+                continue
+            for g in index.get(nm, ()):
+                if id(g) not in seen:
+                    todo.append(g)
+            for c in classes.get(nm, ()):
+                for g in c.body:
+                    if isinstance(g, ast.FunctionDef) and g.name.startswith("__") and id(g) not in seen:
+                        todo.append(g)
+    # nested functions and lambdas of a reached function are reached with it
+    ctx.__dict__["_reachable_fns"] = seen
+    return seen
+
+
 def rule_no_entropy(ctx: Ctx, rid="C01.NO-ENTROPY"):
     """No process-local entropy or ambient source is read anywhere in the package outside the
     vendored sly runtime (the one guarded random.choices call is decided by RANDOM-GUARDED)."""
     n = 0
+    reach = reachable_functions(ctx)
     for m in ctx.src.own_modules():
+        parents_ = {}
+        for node_ in ast.walk(m.tree):
+            for ch_ in ast.iter_child_nodes(node_):
+                parents_[ch_] = node_
         for fn in [x for x in ast.walk(m.tree) if isinstance(x, (ast.FunctionDef, ast.Lambda))]:
             name = getattr(fn, "name", "<lambda>")
+            # a function no compile / evaluation path mentions (and that is not nested in one that is) feeds no result
+            enc, in_reach = fn, False
+            while enc is not None:
+                if isinstance(enc, (ast.FunctionDef, ast.AsyncFunctionDef)) and id(enc) in reach:
+                    in_reach = True
+                    break
+                enc = parents_.get(enc)
+            if not in_reach:
+                continue
             n += 1
             hits = []
             for c in walk_no_nested(fn):
@@ -1924,10 +1987,52 @@ def rule_installed_function(ctx: Ctx, rid="C11.INSTALLED-FUNCTION", strict=True,
         from . import liferules as LF0
         life0 = LF0.lifecycle(ctx)
         reached = len(sites) == 1 or (not life0["undecided"] and life0["facts"].get("execs") == 1)
-        ctx.rep.check(len(allexec) == 1 and reached, pfx + ".EXEC-SITES", f"{EV}:ExperimentEvaluator.recompile[exec]",
-                      "exactly one exec/eval site in the package (outside sly), reached from recompile" if len(allexec) == 1 and reached else
-                      f"{len(allexec)} dynamic-execution sites in the package, {len(sites)} reached from recompile",
-                      text=f"{len(allexec)} exec sites")
+
+        def _fed_by_generator(call, fn_):
+            """exec/eval whose code argument is (compile() of) the text a PythonCodeGen produced, read off the function's own
+            assignments: another site of the same discipline (a dry run, an explanation helper) executes nothing else."""
+            if dotted(call.func) not in ("exec", "eval") or not call.args:
+                return False
+            binds = {}
+            for a_ in ast.walk(fn_):
+                if isinstance(a_, ast.Assign) and len(a_.targets) == 1 and isinstance(a_.targets[0], ast.Name):
+                    binds.setdefault(a_.targets[0].id, []).append(a_.value)
+
+            def gen_text(e, depth=0):
+                if depth > 4:
+                    return False
+                if isinstance(e, ast.Call) and dotted(e.func) == "compile" and e.args:
+                    return gen_text(e.args[0], depth + 1)
+                if isinstance(e, ast.Call) and isinstance(e.func, ast.Attribute) and e.func.attr == "generate" and not e.args:
+                    r_ = e.func.value
+                    if isinstance(r_, ast.Call) and (dotted(r_.func) or "").split(".")[-1] == "PythonCodeGen":
+                        return True
+                    if isinstance(r_, ast.Name) and r_.id in binds:
+                        return all(isinstance(v_, ast.Call) and (dotted(v_.func) or "").split(".")[-1] == "PythonCodeGen" for v_ in binds[r_.id])
+                    return False
+                if isinstance(e, ast.Name) and e.id in binds:
+                    return all(gen_text(v_, depth + 1) for v_ in binds[e.id])
+                return False
+            return gen_text(call.args[0])
+        extra_ok = 0
+        if len(allexec) > 1 and reached:
+            main_site = sites[0][1] if len(sites) == 1 else None
+            others = []
+            for mod in ctx.src.own_modules():
+                for fn_ in [x for x in ast.walk(mod.tree) if isinstance(x, (ast.FunctionDef, ast.AsyncFunctionDef))]:
+                    for n_ in walk_no_nested(fn_):
+                        if any(n_ is x for x in allexec) and n_ is not main_site:
+                            others.append((n_, fn_))
+            if len(others) == len(allexec) - (1 if main_site is not None else 0) and all(_fed_by_generator(n_, f_) for n_, f_ in others):
+                extra_ok = len(others)
+        if extra_ok:
+            ctx.rep.ok(pfx + ".EXEC-SITES", f"{EV}:ExperimentEvaluator.recompile[exec]", f"the exec site reached from recompile, and {extra_ok} "
+                       "further site(s) whose code argument is the compiled output of a PythonCodeGen and nothing else")
+        else:
+            ctx.rep.check(len(allexec) == 1 and reached, pfx + ".EXEC-SITES", f"{EV}:ExperimentEvaluator.recompile[exec]",
+                          "exactly one exec/eval site in the package (outside sly), reached from recompile" if len(allexec) == 1 and reached else
+                          f"{len(allexec)} dynamic-execution sites in the package, {len(sites)} reached from recompile",
+                          text=f"{len(allexec)} exec sites")
     from . import liferules as LF
     life = LF.lifecycle(ctx)
     decided = not life["undecided"]
@@ -2929,6 +3034,24 @@ def rule_no_swallow(ctx: Ctx, rid="C06.NO-SWALLOW"):
                     catches_err = any(nm is None or nm.split(".")[-1] in ("Exception", "BaseException", "LexError", "YaccError", "ParseError", "SyntaxError")
                                       for nm in names)
                     reraises = any(isinstance(x, ast.Raise) for st in h.body for x in ast.walk(st))
+                    if catches_err and not reraises and rel in (EV, WF):
+                        # only a handler around a compile step can swallow a compile error: a try whose body calls neither the
+                        # pipeline (parse / generate / compile / exec), nor another method of the evaluator, nor a function of the
+                        # package guards something else (a caller's callback, a log call)
+                        pipeline = {"parse_source", "tokenize", "parse", "generate", "compile", "exec", "eval", "recompile", "PythonCodeGen",
+                                    "generate_code", "ExperimentLexer", "ExperimentParser"}
+                        local_fns = set(m.functions()) | {f_.name for c_ in m.classes().values() for f_ in c_.body if isinstance(f_, ast.FunctionDef)}
+                        guarded = False
+                        for st in t.body:
+                            for x in ast.walk(st):
+                                if isinstance(x, ast.Call):
+                                    d_ = dotted(x.func) or (x.func.attr if isinstance(x.func, ast.Attribute) else "")
+                                    last = d_.split(".")[-1]
+                                    if last in pipeline or last in local_fns or d_.split(".")[0] in m.imports and (
+                                            m.imports[d_.split(".")[0]][0] or "").startswith("pyab_experiment"):
+                                        guarded = True
+                        if not guarded:
+                            continue
                     if catches_err and not reraises:
                         probs.append((h, f"an except clause for {names} completes normally: the compile error is swallowed"))
         con = f"{rel}:{(cls + '.') if cls else ''}{fname}"
